@@ -422,33 +422,44 @@ ANGLE_UNITS = {'deg', 'grad', 'rad', 'turn'}
 NUM_ZERO = re.compile(r'^[+-]?(0*\.?0*)(e[+-]?\d+)?$', re.I)
 
 
+# VERIF_C04_LIFT=1,9,...: switch single exclusions off (used to verify a fix of the defect in a
+# patched tree; an id is the number of the finding in known/C04.txt / the final report)
+LIFT = set(x for x in os.environ.get('VERIF_C04_LIFT', '').split(',') if x)
+
+
 def excluded(F, prop, text, lexs, css2):
+    for kid, why in _exclusion_hits(F, prop, text, lexs, css2):
+        if kid not in LIFT:
+            return why
+    return None
+
+
+def _exclusion_hits(F, prop, text, lexs, css2):
     fam = F['fam']
     if fam == 'num' and css2 and re.match(r'^[+-]?0*\.?0*e', lexs[0], re.I) and re.match(r'^[+-]?0', lexs[0]):
-        return 'KeepCSS2: zero with an exponent part (0e5)'
+        yield '10', 'KeepCSS2: zero with an exponent part (0e5)'
     if fam == 'font':
         sizeish = [j for j, x in enumerate(lexs) if re.match(r'^[\d.]', x) and j > 0 and lexs[j - 1] == '/' or re.match(r'^([\d.]+(px|em|%)|0|medium)$', x, re.I)]
         if len(sizeish) >= 2 and any(lexs[j].lower() == 'medium' for j in sizeish[1:]):
-            return 'font: a font-size keyword as a word of the family name'
+            yield '12', 'font: a font-size keyword as a word of the family name'
         isid = lambda x: re.match(r'^-?[A-Za-z_]', x) is not None
         for j in range(len(lexs)):
             if re.match(r'^-[A-Za-z_-]', lexs[j]) and ((j + 1 < len(lexs) and isid(lexs[j + 1])) or (j > 0 and isid(lexs[j - 1]))):
-                return 'font: identifier starting with a hyphen next to another identifier (family name of several identifiers)'
+                yield '11', 'font: identifier starting with a hyphen next to another identifier (family name of several identifiers)'
+                break
     if fam == 'bordercolor' and 'currentcolor' in text.lower() and len(lexs) > 1:
-        return 'border-color: currentcolor inside a list of 2-4 colours'
+        yield '3', 'border-color: currentcolor inside a list of 2-4 colours'
     if fam in ('font', 'fontfamily') and any(len(x) > 2 and x[0] in '"\'' and x[1:-1].lower() in GENERIC_FAMILIES for x in lexs):
-        return 'font-family: quoted generic-family / CSS-wide keyword'
+        yield '4', 'font-family: quoted generic-family / CSS-wide keyword'
     if fam == 'num' and lexs[2] == 'top' and lexs[1].lower() in ANGLE_UNITS and NUM_ZERO.match(lexs[0]):
-        return 'zero <angle> directly in a declaration value'
+        yield '5', 'zero <angle> directly in a declaration value'
     if fam == 'colortok' and re.match(r'^#[0-9a-fA-F]{6}00$|^#[0-9a-fA-F]{3}0$', text) and text.lower() not in ('#00000000', '#0000'):
-        return 'hex colour with alpha 00 and non-black channels'
+        yield '6', 'hex colour with alpha 00 and non-black channels'
     if fam == 'background' and sum(1 for x in lexs if x.lower() in ('padding-box', 'border-box', 'content-box')) > 2:
-        return 'background: more than two box keywords in a layer (panic)'
+        yield '9', 'background: more than two box keywords in a layer (panic)'
     if fam in ('bgpos', 'background') and re.search(r'\b(right|bottom)\s+-?[\d.]+%', text, re.I) and \
             len(re.findall(r'\b(left|right|top|bottom|center)\b', text, re.I)) >= 2:
-        return 'background-position: right/bottom with a percentage offset in the 3/4-value syntax'
-    return None
-
+        yield '1', 'background-position: right/bottom with a percentage offset in the 3/4-value syntax'
 
 
 # ------------------------------------------------------------------ structure templates
